@@ -1,27 +1,197 @@
-//! C15 — stub, not built yet.
+//! C15 STAM CSV round trip preserves structure, targets and the text of values.
 
+use crate::content::*;
 use crate::engine::*;
+use crate::hist::*;
+use crate::model::Val;
+use crate::observe::*;
+use crate::props::c05::{err_class, TempDir};
 use proptest::prelude::*;
+use serde::{Deserialize, Serialize};
+use stam::*;
 
 pub struct C15;
 
+#[derive(Clone, Debug, Serialize, Deserialize)]
+pub struct Case {
+    pub hist: History,
+}
+
+fn value_text(v: &Val) -> String {
+    format!("{}", v.to_stam())
+}
+
 impl Property for C15 {
-    type Case = u8;
+    type Case = Case;
     fn id(&self) -> &'static str {
         "C15"
     }
     fn rule(&self) -> String {
-        "not built yet".into()
+        "case = final store of a C01 history (ids without ';'; every selector kind incl. mixed complex selectors, end-aligned and relative offsets; annotations with 0, 1, n data; gaps) written with a .store.stam.csv name and loaded again. Oracle: reload succeeds; same resources and texts; same keys; same data (ids for items that had ids, key, value compared as display text); same annotations in order with same ids (id-less by position), same data references, same target kind/referents, every offset resolving to the same absolute range and text (alignment modes are not compared: the format stores cursors, the claim is about absolute text); the reloaded store passes the self-consistency battery. Non-trivial = a complex selector with mixed kinds, an end-aligned/relative offset, a key/data selector or an annotation without data; distinct = distinct case JSON.".into()
     }
-    fn cases(&self, _tier: Tier) -> u64 {
-        0
+    fn assumptions(&self) -> Vec<String> {
+        vec![
+            "value types are outside the claim (CSV stores values as text): values are compared through Display".into(),
+            "ids of id-less items after the reload are not compared (the format has to invent some)".into(),
+        ]
     }
-    fn strategy(&self, _tier: Tier) -> BoxedStrategy<u8> {
-        any::<u8>().boxed()
+    fn cases(&self, tier: Tier) -> u64 {
+        tier.pick(12_000, 250_000)
     }
-    fn run(&self, _case: &u8) -> Outcome {
-        let mut o = Outcome::new();
-        o.skip("not built");
-        o
+    fn strategy(&self, tier: Tier) -> BoxedStrategy<Case> {
+        let cfg = HistCfg {
+            max_ops: tier.pick(16, 40),
+            text_max: 16,
+            removal_weight: 2,
+            protect_weight: 1,
+            complex_weight: 3,
+            ..HistCfg::default()
+        };
+        history_strategy(cfg).prop_map(|hist| Case { hist }).boxed()
+    }
+
+    fn run(&self, case: &Case) -> Outcome {
+        let mut out = Outcome::new();
+        let mut m = Machine::new(false);
+        for op in &case.hist.ops {
+            let s = m.apply(op);
+            if s.skipped.is_some() {
+                continue;
+            }
+            if s.panic.is_some() || s.result.is_err() || s.mismatch.is_some() {
+                out.label("stopped_at_foreign_divergence");
+                return out;
+            }
+            if op.is_removal() {
+                out.label("has_gap");
+            }
+        }
+        let original = content_of_model(&m.model);
+        let mut store = m.store;
+        let obs = match catch(|| observe(&store)) {
+            Ok(o) => o,
+            Err(_) => {
+                out.label("stopped_at_foreign_divergence");
+                return out;
+            }
+        };
+        {
+            let observed = content(&obs);
+            let d = compare(&original, &observed, true, &value_text);
+            if d.iter().any(|(facet, _, _)| facet != "offset.mode") {
+                out.label("stopped_at_foreign_divergence");
+                return out;
+            }
+        }
+        for a in &obs.anns {
+            let kinds: std::collections::BTreeSet<&str> = a.target.leaves().iter().map(|l| l.kind()).collect();
+            if a.target.is_complex() && kinds.len() > 1 {
+                out.label("mixed_complex");
+                out.nontrivial = true;
+            }
+            if a.target.is_complex() {
+                out.label("complex");
+            }
+            if a.raw_data.is_empty() {
+                out.label("no_data");
+                out.nontrivial = true;
+            }
+            if a.raw_data.len() > 1 {
+                out.label("multi_data");
+            }
+            for l in a.target.leaves() {
+                match l {
+                    crate::model::MSel::Key(..) => {
+                        out.label("key_selector");
+                        out.nontrivial = true;
+                    }
+                    crate::model::MSel::Data(..) => {
+                        out.label("data_selector");
+                        out.nontrivial = true;
+                    }
+                    crate::model::MSel::Ann { text: Some(_), .. } => {
+                        out.label("relative_offset");
+                        out.nontrivial = true;
+                    }
+                    crate::model::MSel::Ann { text: None, .. } => out.label("annotation_selector"),
+                    crate::model::MSel::Res(_) => out.label("resource_selector"),
+                    crate::model::MSel::Set(_) => out.label("dataset_selector"),
+                    crate::model::MSel::Text { mode, .. } => {
+                        if *mode != (false, false) {
+                            out.label("endaligned_offset");
+                            out.nontrivial = true;
+                        }
+                    }
+                    _ => {}
+                }
+            }
+        }
+        let dir = TempDir::new("c15");
+        let f = dir.path("x.store.stam.csv");
+        match catch(|| store.to_file(&f)) {
+            Ok(Ok(())) => {}
+            Ok(Err(e)) => {
+                out.fail("write", err_class(&format!("{}", e)), format!("writing STAM CSV failed: {}", e));
+                return out;
+            }
+            Err(p) => {
+                out.fail("write", p.signature(), format!("writing STAM CSV panicked at {}:{}: {}", p.file, p.line, p.msg));
+                return out;
+            }
+        }
+        let store2 = match catch(|| AnnotationStore::from_file(&f, Config::default())) {
+            Ok(Ok(s)) => s,
+            Ok(Err(e)) => {
+                out.fail("reload_ok", err_class(&format!("{}", e)), format!("reading back the written STAM CSV failed: {}", e));
+                return out;
+            }
+            Err(p) => {
+                out.fail("reload_ok", p.signature(), format!("reading back the written STAM CSV panicked at {}:{}: {}", p.file, p.line, p.msg));
+                return out;
+            }
+        };
+        let obs2 = match catch(|| observe(&store2)) {
+            Ok(o) => o,
+            Err(p) => {
+                out.fail("reload_ok", format!("traverse|{}", p.signature()), format!("traversing the reloaded store panicked at {}:{}: {}", p.file, p.line, p.msg));
+                return out;
+            }
+        };
+        let mut reloaded = content(&obs2);
+        // ids of id-less items are not compared
+        for (a, b) in original.anns.iter().zip(reloaded.anns.iter_mut()) {
+            if a.id.is_none() {
+                b.id = None;
+            }
+        }
+        for (sa, sb) in original.sets.iter().zip(reloaded.sets.iter_mut()) {
+            for (a, b) in sa.data.iter().zip(sb.data.iter_mut()) {
+                if a.id.is_none() {
+                    b.id = None;
+                }
+            }
+        }
+        out.checks += 1;
+        for (facet, sig, detail) in compare(&original, &reloaded, false, &value_text) {
+            if facet == "offset.mode" {
+                continue; // absolute ranges are the claim
+            }
+            out.fail(&facet, sig, detail);
+        }
+        if out.failures.is_empty() {
+            let mut sc = crate::hcheck::StepCheck {
+                findings: vec![],
+                diverged: false,
+                obs: None,
+                checks: 0,
+            };
+            if catch(|| crate::hcheck::check_consistency(&store2, &obs2, &mut sc, None)).is_ok() {
+                out.checks += sc.checks;
+                for fnd in sc.findings {
+                    out.fail(&format!("reloaded.{}", fnd.failure.facet), fnd.failure.signature, fnd.failure.detail);
+                }
+            }
+        }
+        out
     }
 }
